@@ -73,7 +73,7 @@ def build_trie(phrases, ids):
 def build_string_matcher(phrases):
     from recognizers_text.matcher.string_matcher import StringMatcher
     m = StringMatcher()
-    m.init(list(phrases))
+    m.init(dict(phrases) if isinstance(phrases, dict) else list(phrases))
     return m
 
 
@@ -110,3 +110,9 @@ def char_pred(name, c):
         import regex
         return regex.search('[^\\w\\d]', c, flags=regex.S) is not None
     raise NotImplementedError(name)
+
+
+def exact_div(a, b):
+    """a / b as an exact rational (the symbolic engine divides reals; natively a float would lose the equality)"""
+    from fractions import Fraction
+    return Fraction(a) / Fraction(b)
